@@ -1318,6 +1318,7 @@ Fixpoint spec_text (r : recipe) : option str :=
     spec_prefix (spec_fmt_with spec_text f) (spec_text r)
   | RWithStack r | RHint r _ | RDetail r _ | RIssueLink r _ _ | RTelemetry r _ | RDomain r _
   | RTags r _ | RAssert r | RMark r _ | RSafeDetails r _ | RHTTP r _ | RGrpc r _ | RSecondary r _
+  | RHintf r _ | RDetailf r _
   | RPkgStack r => spec_text r
   | RCombine r s => match spec_text r with Some t => Some t | None => spec_text s end
   | RHandled r | RHandledInDomain r _ | RHandleAssert r => spec_text r
@@ -1396,7 +1397,8 @@ Fixpoint ok_recipe (r : recipe) : bool :=
   | RWrap r m | RWithMessage r m => ok_recipe r && lit_ok m
   | RWrapf r f | RWithMessagef r f => ok_recipe r && ok_fmt_with ok_recipe spec_text f
   | RWithStack r | RHint r _ | RDetail r _ | RIssueLink r _ _ | RTelemetry r _ | RDomain r _
-  | RTags r _ | RAssert r | RMark r _ | RSafeDetails r _ | RHTTP r _ | RGrpc r _ | RSecondary r _ =>
+  | RTags r _ | RAssert r | RMark r _ | RSafeDetails r _ | RHTTP r _ | RGrpc r _ | RSecondary r _
+  | RHintf r _ | RDetailf r _ =>
     ok_recipe r
   | RCombine r s => ok_recipe r && ok_recipe s
   | RHandled r | RHandledInDomain r _ | RHandleAssert r => ok_recipe r && one_line_spec (spec_text r)
@@ -1560,6 +1562,12 @@ Lemma build_safedetails r f s :
     if is_fmt_empty f then (e, s2) else
     mk_wrap (WSafeDetails [redact_strip (sprint_pieces (bf_pieces b))]) e s2).
 Proof. reflexivity. Qed.
+Lemma build_hintf r f s :
+  build env (RHintf r f) s = on_f_ r f s (fun e b s2 => mk_wrap (WHint (bf_plain b)) e s2).
+Proof. reflexivity. Qed.
+Lemma build_detailf r f s :
+  build env (RDetailf r f) s = on_f_ r f s (fun e b s2 => mk_wrap (WDetail (bf_plain b)) e s2).
+Proof. reflexivity. Qed.
 Lemma build_handledmsgf r f s :
   build env (RHandledMsgf r f) s =
   on_f_ r f s (fun e b s2 =>
@@ -1649,7 +1657,8 @@ Definition kids (r : recipe) : list recipe :=
   | RHandled r | RHandledMsg r _ | RHandledInDomain r _ | RHandledInDomainMsg r _ _ | RHandleAssert r
   | RPkgMsg r _ | RPkgStack r | RPathError r _ _ | RLinkError r _ _ _ | RSyscallError r _
   | ROpError r _ _ _ _ | RUWrap _ r _ _ | RTransfer r _ => [r]
-  | RWrapf r f | RWithMessagef r f | RSafeDetails r f | RHandledMsgf r f | RNewAssertWrapped r f =>
+  | RWrapf r f | RWithMessagef r f | RSafeDetails r f | RHandledMsgf r f | RNewAssertWrapped r f
+  | RHintf r f | RDetailf r f =>
     r :: fkids f
   | RMark r x | RSecondary r x | RCombine r x => [r; x]
   | RJoin rs | RStdJoin rs => rs
@@ -2238,6 +2247,20 @@ Proof.
     intros e s1 Te Ae. destruct (with_stack_ok e s1 Ae) as [A B].
     split; [cbn [spec_text]; now rewrite B|exact A].
   - annot_case Pr Hok r s (WHint h).
+  - (* RHintf *)
+    rewrite build_hintf.
+    apply (on_f_gen r f s _ _ (fun _ => True)); [apply Pr; exact Hok|intro s'; exact I|
+      |intro E; cbn [spec_text]; now rewrite E].
+    intros e b s1 Te Ae _. cbn [spec_text].
+    match goal with |- context [mk_wrap ?w e s1] => destruct (mk_wrap_annot w e s1 eq_refl Ae) as [A B] end.
+    split; [now rewrite B|exact A].
+  - (* RDetailf *)
+    rewrite build_detailf.
+    apply (on_f_gen r f s _ _ (fun _ => True)); [apply Pr; exact Hok|intro s'; exact I|
+      |intro E; cbn [spec_text]; now rewrite E].
+    intros e b s1 Te Ae _. cbn [spec_text].
+    match goal with |- context [mk_wrap ?w e s1] => destruct (mk_wrap_annot w e s1 eq_refl Ae) as [A B] end.
+    split; [now rewrite B|exact A].
   - annot_case Pr Hok r s (WDetail d).
   - annot_case Pr Hok r s (WIssueLink url det).
   - annot_case Pr Hok r s (WTelemetry keys).
